@@ -161,6 +161,16 @@ def replay(ctx, data):
                 print('replay: write raised', type(e).__name__); return 'raises-on-representable' in data.get('finding_key', '')
             got = f.parse_string(line + '\n', inp['record'])
             print('replay: line %r -> %r' % (line, got))
+            # the sequence clause: parse twice, the caller edits both results, parse the identical line again
+            snap = list(got)
+            again = f.parse_string(line + '\n', inp['record'])
+            del got[len(got) // 2:]
+            if got: got[0] = '#edited by the caller#'
+            del again[1:]
+            third = f.parse_string(line + '\n', inp['record'])
+            if not orc.same_list(third, snap): print('replay: third parse %r' % (third,)); return True
+            got = snap
+            if f.write_values_to_string(list(vals), inp['record']) != line: return True
             for j, s2 in enumerate(specs):
                 if not orc.check_field(orc.expected_readback(s2, vals[j], None), got[j], s2): return True
             i = inp.get('field')
